@@ -350,9 +350,9 @@ def check_output(ver, req_tokens, d):
                     return None
                 return "CIF 1.1: CIF_DISALLOWED_CHAR without a character outside the CIF 1.1 set"
             if rc == CIF_DISALLOWED_VALUE:
-                if nested or any(any(s[j] == 10 and s[j + 1] == 59 for j in range(len(s) - 1)) for _, _, s in strings):
+                if nested or any(any(s[j] in (10, 13) and s[j + 1] == 59 for j in range(len(s) - 1)) for _, _, s in strings):
                     return None
-                return "CIF 1.1: CIF_DISALLOWED_VALUE without a list, a table or a string containing <LF>;"
+                return "CIF 1.1: CIF_DISALLOWED_VALUE without a list, a table or a string containing a line terminator followed by ;"
             return "CIF 1.1: cif_write failed with code %d (only CIF_DISALLOWED_VALUE / CIF_DISALLOWED_CHAR are documented)" % rc
         if rc == CIF_DISALLOWED_VALUE and any(not key_quotable(k) for k in keys):
             return None
